@@ -6,6 +6,7 @@
 //! trusted: R15 (deep slice): remove_stale_payments runs a retain closure under two mutexes; the unit extracts the tick / keep statement of the Fulfilled arm verbatim as a function of (no_remaining_entries, the tick counter); the scan of pending events that computes no_remaining_entries is dropped and not claimed
 //! trusted: R15 (deep slice): OutboundPayments::fail_htlc decodes the onion failure and works on a HashMap entry under a mutex; the unit extracts the whole per-payment block of the Occupied arm verbatim as a function of the payment (checked against the proved contracts of remove / is_fulfilled / mark_abandoned above); `payment.get()/get_mut()` become the reference itself, `payment.remove()` sets a flag, `return;` returns None (R5); is_auto_retryable_now / insert_previously_failed_* are external_body (retry strategy opaque; frame assumed); Event reduced to PaymentFailed; the path events built afterwards are dropped and not claimed
 //! trusted: R15 (deep slice): OutboundPayments::claim_htlc: the whole per-payment block of the Occupied arm verbatim as a function of the payment and the event queue (a Vec here; push_back -> push); Sha256::hash(..).to_byte_array() is the external_body wrapper sha256 (R8); Event reduced to the three variants used
+//! trusted: R15 (deep slice): OutboundPayments::abandon_payment: the per-payment block verbatim (same conventions as fail_htlc / claim_htlc)
 //! assume: fail_htlc: a failure attributed to a blinded path carries no short_channel_id and the failed path has a blinded tail (debug_asserts on decode_onion_failure's result)
 //! assume: callers keep the representation invariant pending_amt_msat >= value of every in-flight path (and pending_fee_msat >= its fee); remove()/insert() are not called on pre-HTLC states (LDK's debug_assert!(false) arms)
 use vstd::prelude::*;
@@ -136,6 +137,8 @@ impl PendingOutboundPayment {
         && final(self).spec_total() == old(self).spec_total()
         && final(self).spec_fee() == old(self).spec_fee(),
     (*final(self)) is Fulfilled <==> (*old(self)) is Fulfilled,
+    (*old(self)) is AwaitingInvoice || (*old(self)) is AwaitingOffer || (*old(self)) is Legacy ==> *final(self) == *old(self),
+    (*old(self)) is InvoiceReceived || (*old(self)) is StaticInvoiceReceived ==> (*final(self)) is Abandoned && final(self).privs() =~= Set::<[u8; 32]>::empty(),
 //@mutant abandon_a_fulfilled_payment
     Self::Retryable { payment_hash, .. } |
 //@with
@@ -359,6 +362,48 @@ impl PendingOutboundPayment {
     let amount_msat = payment.get().total_msat();
 //@with
     let amount_msat = None;
+//@end
+
+// ---- the user gives up on a payment (deep R15 slice of OutboundPayments::abandon_payment) ----
+//@extract lightning/src/ln/outbound_payment.rs :: impl OutboundPayments :: fn abandon_payment
+//@strip events
+//@slice R15
+    if let hash_map::Entry::Occupied(mut payment) = outbounds.entry(payment_id) { $body:any }
+//@with
+    fn abandon_on_payment(payment: &mut PendingOutboundPayment, payment_id: PaymentId, reason: PaymentFailureReason,
+        pending_events: &mut Vec<(Event, Option<EventCompletionAction>)>, removed: &mut bool) {
+        $body
+    }
+//@rw R5 *
+    payment.get_mut()
+//@with
+    payment
+//@rw R5 *
+    payment.get()
+//@with
+    (&*payment)
+//@rw R5 *
+    pending_events.lock().unwrap().push_back(
+//@with
+    pending_events.push(
+//@rw R5 *
+    payment.remove();
+//@with
+    *removed = true;
+//@r7
+//@requires
+    !*old(removed),
+//@ensures P C03 abandoning-reports-PaymentFailed-only-when-no-part-is-in-flight-and-never-for-a-fulfilled-payment-and-forgets-the-payment-exactly-then
+    (*old(payment)) is Fulfilled ==> *final(payment) == *old(payment) && !*final(removed) && final(pending_events)@ == old(pending_events)@,
+    *final(removed) <==> final(pending_events)@.len() == old(pending_events)@.len() + 1,
+    !*final(removed) ==> final(pending_events)@ == old(pending_events)@,
+    *final(removed) ==> final(pending_events)@[old(pending_events)@.len() as int].0 is PaymentFailed
+        && (((*final(payment)) is Abandoned && final(payment).privs() =~= Set::<[u8; 32]>::empty()) || (*old(payment)) is AwaitingInvoice || (*old(payment)) is AwaitingOffer),
+    (*old(payment)) is Retryable && !(old(payment).privs() =~= Set::<[u8; 32]>::empty()) ==> !*final(removed) && (*final(payment)) is Abandoned && final(payment).privs() == old(payment).privs(),
+//@mutant failure_reported_while_parts_are_in_flight
+    if payment.get().remaining_parts() == 0 {
+//@with
+    if true {
 //@end
 }
 fn main() {}
